@@ -93,7 +93,11 @@ def build_go():
     ov = write_overlay()
     rc, out2 = sh(["go", "build", "-tags", "verif", "-overlay", ov, "-o", os.path.join(BUILD, "verifharness"),
                    "./cmd/verifharness"], cwd=REPO, env=env)
-    return rc == 0, out + out2
+    if rc != 0:
+        return False, out + out2
+    # the real CLI plus the hidden `verif-formats` command (one analysis, five formats)
+    rc, out3 = sh(["go", "build", "-tags", "verif", "-overlay", ov, "-o", os.path.join(BUILD, "pyscn_verif"), "./cmd/pyscn"], cwd=REPO, env=env)
+    return rc == 0, out + out2 + out3
 
 
 def build_extract():
@@ -229,6 +233,11 @@ def batch(argv, lines, env=None, cwd=None, timeout=3600):
     if outs and outs[-1] == "":
         outs.pop()
     return p.returncode, outs, p.stderr
+
+
+def sh_capture(argv, cwd=None, env=None, timeout=900):
+    p = subprocess.run(argv, cwd=cwd, env=env, text=True, stdout=subprocess.PIPE, stderr=subprocess.PIPE, timeout=timeout)
+    return p.returncode, p.stdout, p.stderr
 
 
 def harness_env():
